@@ -2,7 +2,7 @@
 import json, sys
 M = "MsqProofs.Props.C03R"
 C03 = [
- ("C03.tstatement_any", "T-parse over the UNION of all statement fragments (FragAny = queries FragQ2 | DELETE/UPDATE/INSERT/WITH FragStmt | CREATE TABLE FragCreate | the remaining classes FragRest), every dialect: FragAny d s -> stopsAny d rest (end or ';') -> 20*sizeL(toksAny d s)+16 <= fuel -> pStatement d fuel (toksAny d s ++ rest) = ok (s, restAfter s rest) (CREATE TABLE swallows one ';' itself)"),
+ ("C03.tstatement_any", "T-parse over the UNION of all statement fragments (FragAny = queries FragQ2 | DELETE/UPDATE/INSERT/WITH over FragQ2 (TDM2.FragStmt ⊇ TDM.FragStmt) | CREATE TABLE FragCreate | the remaining classes FragRest), every dialect: FragAny d s -> stopsAny d rest (end or ';') -> 20*sizeL(toksAny d s)+16 <= fuel -> pStatement d fuel (toksAny d s ++ rest) = ok (s, restAfter s rest) (CREATE TABLE swallows one ';' itself)"),
  ("C03.tscript_any", "scripts mixing every statement class: the renderings of ANY list of FragAny statements joined by ';' (with / without a final one) parse through parse_statements' loop with the entry point's own fuel to exactly that list (via C10.script_concat_entry)"),
  ("C03.tscript_any_loop", "the same with explicit parser fuel and loop fuel"),
  ("C03.tstatement_any_entry_fuel", "the fuel the public entry points compute dominates the bound of tstatement_any"),
@@ -18,7 +18,12 @@ C03 = [
  ("C03.tanalyze", "ANALYZE TABLE: Hive rendering with PARTITION and every combination of FOR COLUMNS / CACHE METADATA / NOSCAN; bare MySQL rendering"),
  ("C03.analyze_slots", "ANALYZE TABLE (Hive): partition list and each flag from its own words"),
  ("C03.tshow_columns", "SHOW COLUMNS FROM t, … [WHERE e] over the tables / expressions of the larger query fragment"), ("C03.show_columns_slots", "SHOW COLUMNS: tables in order, filter in its slot"),
- ("C03.tcreate_table_as", "CREATE TABLE t AS <query of FragQ2>"),
+ ("C03.tcreate_table_as", "CREATE TABLE t AS [WITH …] <query of FragQ2>"),
+ ("C03.tstatement2", "C03.tstatement LIFTED to the larger fragment (Lemmas/TDmlQ0-4, generated from TDml0-4 by tools/dev/gen_tdml2.py, namespace TDM2): DELETE / UPDATE / INSERT … VALUES / INSERT … query / [WITH …] query over FragQ2 and FragE4 (window functions, CAST, EXTRACT, IF, array index, USING, GROUPING SETS, LATERAL VIEW, SORT / DISTRIBUTE / CLUSTER BY inside data-change statements and WITH bodies)"),
+ ("C03.tstatement2_ch", "the same with redundant brackets and the optional word TABLE written or not"),
+ ("C03.fragStmt_sub_fragStmt2", "TDM.FragStmt ⊆ TDM2.FragStmt with equal renderings (Lemmas/TDmlQI): C03.tstatement is an instance of C03.tstatement2"),
+ ("C03.fragAny_of_fragStmt", "the union fragment contains the data-change fragment of Props/C03D with the same rendering"),
+ ("C03.fragAny_of_fragQ2", "the union fragment contains the queries of FragQ2 with the rendering toksQ2"),
 ]
 C01 = [
  ("C01.statement_round_trip_tokens_any", "print / parse round trip at token level for EVERY statement class (union fragment FragAny): pStatement d fuel (toksAny d s) = ok (s, []), and whatever is parsed prints to the same tokens (#guards: the lexer on PR.prStmt's text gives toksAny for every class in MYSQL and HIVE)"),
